@@ -5,5 +5,8 @@ CONSTANTS
   MaxFiles = 2
   Rich = FALSE
   WithBad = FALSE
+  Routes = {"inst"}
+  Layouts = {"flat"}
+  Slim = FALSE
 INVARIANT PinnedFollowsDocs
 CHECK_DEADLOCK FALSE
